@@ -19,7 +19,7 @@ CONFIG = {
  'C09': dict(level='proof', tags={'C09'}, profiles=[('any', 36000, 1152000), ('writer', 9600, 307200), ('stream', 9600, 307200)], assumptions=[A_MODEL, A_SIZE]),
  'C10': dict(level='proof', tags={'C10'}, owns_crash=['writer'], profiles=[('tr', 36000, 1152000), ('rt', 6000, 192000)], assumptions=[A_MODEL, A_SIZE]),
  'C11': dict(level='proof', tags={'C11'}, profiles=[('nav', 48000, 1536000), ('xnav', 46, 57)], assumptions=[A_MODEL, A_SIZE]),
- 'C12': dict(level='proof', tags={'C12'}, profiles=[('reuse', 36000, 1152000), ('writer', 6000, 192000)], assumptions=[A_MODEL, A_SIZE]),
+ 'C12': dict(level='proof', tags={'C12'}, owns_crash=['writer'], profiles=[('reuse', 36000, 1152000), ('writer', 6000, 192000)], assumptions=[A_MODEL, A_SIZE]),
  'C13': dict(level='proof', tags={'C13'}, owns_crash=['print'], profiles=[('print', 14400, 24000), ('any', 9600, 307200)], assumptions=[A_MODEL, A_SIZE, A_LIBC]),
  'C14': dict(level='proof', tags={'C14'}, profiles=[('print', 18000, 30000)], assumptions=[A_MODEL, A_SIZE, A_LIBC]),
  'C16': dict(level='proof', tags={'C16'}, owns_crash=['timeout'], profiles=[('any', 36000, 1152000), ('verify', 24000, 768000), ('stream', 18000, 576000)], assumptions=[A_MODEL, A_SIZE]),
